@@ -1,15 +1,15 @@
 #!/bin/bash
 # seedmatrix.sh [seed ids...] : for each confirmed seeded change, applies it to a scratch
 # copy of /repo and runs every check; prints which properties/rules report it.
-# Nothing is applied to /repo itself.
+# Nothing is applied to /repo itself. Seeds are processed 6 at a time.
 export GOFLAGS=-mod=mod GOPROXY=off GOSUMDB=off GOTOOLCHAIN=local; unset GOWORK
 cd /verif
-seeds=${*:-$(ls seeded)}
-props=$(python3 -c "import json;print(' '.join(c['property_id'] for c in json.load(open('MANIFEST.json'))['checks']))")
-for s in $seeds; do
+if [ "$1" = "--one" ]; then
+  s=$2
+  props=$(python3 -c "import json;print(' '.join(c['property_id'] for c in json.load(open('MANIFEST.json'))['checks']))")
   own=${s%%-*}
   scratch=$(mktemp -d /tmp/mut.XXXXXX); cp -r /repo/. $scratch/; rm -rf $scratch/.git
-  (cd $scratch && patch -p1 -s < /verif/seeded/$s/patch.diff) || { echo "$s: PATCH FAILED"; rm -rf $scratch; continue; }
+  (cd $scratch && patch -p1 -s < /verif/seeded/$s/patch.diff) || { echo "$s: PATCH FAILED"; rm -rf $scratch; exit 0; }
   vd=$(mktemp -d /tmp/mutv.XXXXXX); cp known_findings.json $vd/
   hits=""; ownhit=no
   for p in $props; do
@@ -19,4 +19,7 @@ for s in $seeds; do
   done
   echo "$s own-property-check-fires=$ownhit :$hits"
   rm -rf $scratch $vd
-done
+  exit 0
+fi
+seeds=${*:-$(ls seeded)}
+printf '%s\n' $seeds | xargs -P 6 -I{} /verif/tools/seedmatrix.sh --one {} | sort
